@@ -115,7 +115,8 @@ NUM_CARRIERS = ["sub_both", "sub_both2", "assign", "assign_elem", "sub_rhs", "su
                 "for_limit", "for_step", "print_item", "print_at_pos", "on_sel", "dev_cls", "dev_hline", "dev_sound",
                 "dev_hcircle", "dev_poke", "read_sub", "input_sub", "loop_body", "jump_target", "two_statements", "width",
                 "assign_raw", "assign_elem_raw", "print_raw", "print_item_raw", "print_at_raw", "print_last_raw", "print_many",
-                "varptr_sub", "varptr_sub2", "if_nested_false", "if_nested_true", "if_nested_deep"]
+                "varptr_sub", "varptr_sub2", "if_nested_false", "if_nested_true", "if_nested_deep",
+                "for_limit_step", "for_all_three"]
 STR_CARRIERS = ["assign_s", "assign_elem_s", "print_item_s", "print_at_item_s", "if_s_noelse", "if_s_else", "dev_hprint",
                 "dev_hdraw", "loop_body_s", "len_assign"]
 
@@ -180,6 +181,12 @@ def carrier(name, e):
     if name == "if_arm":
         return one([("if", ("bin", ">", A, n(0)), ("stmts", [("let", R, e, False), ("let", ("var", "Q"), e, False)]), [],
                      ("stmts", [("let", R, n(0), False)]))])
+    if name in ("for_limit_step", "for_all_three"):
+        a = n(0) if name == "for_limit_step" else ("bin", "AND", F("BUTTON", n(3)), n(1))
+        b = ("bin", "+", ("bin", "AND", e, n(3)), n(2))
+        st = ("bin", "+", ("bin", "AND", F("JOYSTK", n(1)), n(1)), n(1))
+        return one([("let", ("var", "S"), n(0), False), ("for", "I", a, b, st),
+                    ("let", ("var", "S"), ("bin", "+", ("bin", "*", ("var", "S"), n(2)), ("var", "I")), False), ("next", ["I"])])
     if name in ("for_start", "for_limit", "for_step"):
         a, b, s = n(1), n(3), None
         if name == "for_start":
